@@ -1440,8 +1440,20 @@ def _ev(e, env, degree):
         return e.value
     if isinstance(e, ast.Name):
         return env.get(e.id, UNK)
+    if isinstance(e, ast.Attribute) and "." + e.attr in env:
+        return env["." + e.attr]
     if isinstance(e, ast.Attribute) and e.attr == "degree":
         return degree
+    if isinstance(e, ast.Compare) and len(e.ops) > 1:
+        # a < b <= c : the conjunction of the links
+        vals = []
+        left = e.left
+        for op, right in zip(e.ops, e.comparators):
+            vals.append(_ev(ast.Compare(left=left, ops=[op], comparators=[right]), env, degree))
+            left = right
+        if any(v is not UNK and not v for v in vals):
+            return False
+        return UNK if any(v is UNK for v in vals) else True
     if isinstance(e, ast.BinOp):
         a, b = _ev(e.left, env, degree), _ev(e.right, env, degree)
         if a is UNK or b is UNK or not isinstance(a, int) or not isinstance(b, int):
@@ -1468,6 +1480,18 @@ def _ev(e, env, degree):
             return not a
         if isinstance(e.op, ast.USub) and isinstance(a, int):
             return -a
+        return UNK
+    if isinstance(e, ast.Call) and isinstance(e.func, ast.Name) and e.func.id == "isinstance" and len(e.args) == 2:
+        x = _ev(e.args[0], env, degree)
+        types = [t.id for t in (e.args[1].elts if isinstance(e.args[1], ast.Tuple) else [e.args[1]]) if isinstance(t, ast.Name)]
+        if x is UNK or not types:
+            return UNK
+        if isinstance(x, bool):
+            return "bool" in types or "int" in types
+        if isinstance(x, int):
+            return "int" in types
+        if x is None or isinstance(x, str):
+            return (type(x).__name__ in types) if isinstance(x, str) else False
         return UNK
     if isinstance(e, ast.Call) and isinstance(e.func, ast.Name) and e.func.id in ("max", "min", "int") and e.args and not e.keywords:
         vs = [_ev(a, env, degree) for a in e.args]
@@ -1660,3 +1684,370 @@ def search_all(r: R, chk, entries: List[str], rule="SEARCH-ALL", floor: int = 1)
                    func=q, construct=f"loop over {seg(h.ast.iter, 30)} never iterates twice")
     chk.floor(rule, "conditional for-loops on the path", n, floor)
     return n
+
+
+# ------------------------------------------------------------------------------------------------
+# DTYPE-INHERIT: an array that receives quotients does not take its dtype from the data
+def dtype_inherit(r: R, chk, entries: List[str], rule="DTYPE-INHERIT"):
+    """`np.zeros_like(x)` / `empty_like` / `ones_like` / `full_like` (no dtype=) and `np.array(x)` / `np.zeros(n, dtype=x.dtype)`
+    give an array of the dtype of x; when x is made of the caller's data (integer knots) the array is int64 and every quotient
+    stored into it is truncated without a word.  On the functions reachable from the entries, an array created that way from a
+    parameter must not be the target of an element store whose value contains a true division."""
+    from .divisions import reachable_functions
+
+    n = 0
+    for q in reachable_functions(r, entries):
+        ctx = r.A.roots.get(q)
+        if ctx is None:
+            continue
+        fi = ctx.fi
+        arrays = {}
+        for a in ast.walk(fi.node):
+            if not (isinstance(a, ast.Assign) and len(a.targets) == 1 and isinstance(a.targets[0], ast.Name) and isinstance(a.value, ast.Call)):
+                continue
+            fn = seg(a.value.func)
+            if fn.split(".")[-1] in ("zeros_like", "empty_like", "ones_like", "full_like") and a.value.args and not any(k.arg == "dtype" for k in a.value.keywords):
+                if _reaching_params(fi, a.value.args[0]):
+                    arrays[a.targets[0].id] = a
+            elif fn.split(".")[-1] in ("zeros", "empty", "ones", "full"):
+                dt = next((k.value for k in a.value.keywords if k.arg == "dtype"), None)
+                if dt is not None and isinstance(dt, ast.Attribute) and dt.attr == "dtype" and _reaching_params(fi, dt.value):
+                    arrays[a.targets[0].id] = a
+        for name, mk in arrays.items():
+            stores = [s for s in ast.walk(fi.node) if isinstance(s, (ast.Assign, ast.AugAssign)) and any(isinstance(t, ast.Subscript) and isinstance(t.value, ast.Name) and t.value.id == name for t in (s.targets if isinstance(s, ast.Assign) else [s.target]))]
+            for s_ in stores:
+                from .common import expand_locals
+
+                v = expand_locals(fi, s_.value)
+                if not (any(isinstance(x, ast.BinOp) and isinstance(x.op, ast.Div) for x in ast.walk(v)) or (isinstance(s_, ast.AugAssign) and isinstance(s_.op, ast.Div))):
+                    continue
+                n += 1
+                chk.ob(rule, f"{q}: `{seg(s_, 40)}` stores a quotient into an array of a fixed floating / object dtype", False, loc=r.loc(ctx, s_),
+                       detail=f"{q}: `{seg(mk, 60)}` takes the dtype of the caller's data; with integer knots it is an int64 array and `{seg(s_, 50)}` truncates every quotient that is stored into it (a derivative factor p/(u_(i+p) - u_i) of 3/2 becomes 1) without raising",
+                       func=q, construct=f"quotients stored into an array of inherited dtype `{name}`")
+    if not n:
+        chk.ob(rule, "no array of inherited dtype receives quotients on these paths", True, loc="")
+    return n
+
+
+# ------------------------------------------------------------------------------------------------
+# LOOP-ACCUMULATE: what a loop hands to the code after it takes every iteration into account
+def _overwritten_in_loops(fn: ast.FunctionDef):
+    """(loop, name, assignment) where `name` is assigned unconditionally at the top level of the body of a `for` loop without
+    `break`, by a plain assignment whose right-hand side does not read `name`, is never augmented in the loop, and is read after
+    the loop before being assigned again: only the value of the last iteration survives"""
+    out = []
+    for lp in ast.walk(fn):
+        if not isinstance(lp, ast.For) or any(isinstance(x, ast.Break) for x in ast.walk(lp)):
+            continue
+        enclosing = [o for o in ast.walk(fn) if isinstance(o, (ast.For, ast.While)) and o is not lp and any(x is lp for x in ast.walk(o))]
+        for st in lp.body:
+            if not (isinstance(st, ast.Assign) and len(st.targets) == 1 and isinstance(st.targets[0], ast.Name)):
+                continue
+            nm = st.targets[0].id
+            if any(isinstance(x, ast.Name) and x.id == nm for x in ast.walk(st.value)):
+                continue
+            if any(isinstance(x, ast.AugAssign) and isinstance(x.target, ast.Name) and x.target.id == nm for s2 in lp.body for x in ast.walk(s2)):
+                continue
+            if enclosing:
+                continue  # the next round of an outer loop may be the reader: not examined
+            later = sorted([x for x in ast.walk(fn) if isinstance(x, ast.Name) and x.id == nm and (x.lineno, x.col_offset) > (lp.end_lineno, lp.end_col_offset or 0)], key=lambda x: (x.lineno, x.col_offset))
+            if later and isinstance(later[0].ctx, ast.Load):
+                out.append((lp, nm, st))
+    return out
+
+
+_LOOP_CONTROL = """
+def control(parts, matrix):
+    error = 0
+    for values in parts:
+        quad = values @ matrix @ values
+        error = abs(quad)
+    return error
+"""
+
+
+def loop_accumulate(r: R, chk, quals: List[str], rule="LOOP-ACCUMULATE"):
+    """on the functions that compute the error compared with the tolerance: a quantity built in a loop over components and used
+    after the loop has to accumulate (`+=`, `max(old, new)`, append); a plain `x = f(component)` keeps the last component only"""
+    ctl = _overwritten_in_loops(ast.parse(_LOOP_CONTROL).body[0])
+    if [(nm) for _, nm, _ in ctl] != ["error"]:
+        from .. import AnalysisError
+
+        raise AnalysisError(f"{rule}: the positive control is not recognised any more: {ctl}")
+    n = 0
+    for q in quals:
+        ctx = r.root(q)
+        fi = ctx.fi
+        loops = [x for x in ast.walk(fi.node) if isinstance(x, ast.For)]
+        n += len(loops)
+        for lp, nm, st in _overwritten_in_loops(fi.node):
+            chk.ob(rule, f"{q}: `{nm}` accumulates over the loop at line {lp.lineno}", False, loc=r.loc(ctx, st),
+                   detail=f"{q}: `{seg(st, 50)}` replaces `{nm}` in every round of `for {seg(lp.target, 20)} in {seg(lp.iter, 30)}` and `{nm}` is used after the loop: only the last component counts (the error of the other components never reaches the comparison with the tolerance, so a lossy result is accepted)",
+                   func=q, construct=f"`{nm}` overwritten in a loop and used after it")
+    chk.ob(rule, f"no quantity used after a loop is overwritten per round in {', '.join(x.split('.')[-1] for x in quals)} ({n} loops; positive control recognised)", True, loc="")
+    return n
+
+
+# ------------------------------------------------------------------------------------------------
+# LOSSY-COMPARE: exact numbers are not compared through their float image
+def lossy_compare(r: R, chk, AX, quals_prefix=None, rule="LOSSY-COMPARE"):
+    """exact context: a comparison decides on `float(x)` of exact data (a Fraction, a big int) against an exact number: two values
+    closer than one ulp compare equal / the wrong way round, so a node just outside [umin, umax] is judged to be inside.
+    `float("inf")` and other conversions of literals are not data."""
+    mods = {m_: r.prog.modules[m_].tree for m_ in r.prog.modules}
+
+    def literal_conversion(src: str) -> bool:
+        try:
+            loc = src.split(": ")[0]
+            mod, line = loc.rsplit(":", 1)
+            tree = mods.get(mod.replace(".py", ""))
+            calls = [c for c in ast.walk(tree) if isinstance(c, ast.Call) and getattr(c, "lineno", -1) == int(line) and isinstance(c.func, ast.Name) and c.func.id == "float"]
+            return bool(calls) and all(c.args and isinstance(c.args[0], ast.Constant) for c in calls)
+        except Exception:
+            return False
+
+    seen = set()
+    n = 0
+    for k, c in AX.ctxs.items():
+        q = k[0]
+        for node in ast.walk(c.fi.node):
+            if not (isinstance(node, ast.Compare) and isinstance(node.ops[0], (ast.Lt, ast.LtE, ast.Gt, ast.GtE, ast.Eq, ast.NotEq))):
+                continue
+            sides = [node.left] + list(node.comparators)
+            vals = [c.val(s_) for s_ in sides]
+            if any(v is None for v in vals):
+                continue
+            n += 1
+            fl = []
+            for s_, v in zip(sides, vals):
+                if "F" in v.all_kinds():
+                    srcs = [str(x) for x in v.all_fsrc() if "float(" in str(x) and not literal_conversion(str(x))]
+                    if srcs:
+                        fl.append((s_, srcs[0]))
+            ex = [s_ for s_, v in zip(sides, vals) if (v.all_kinds() - {"N"}) and (v.all_kinds() - {"N"}) <= {"I", "Z", "Q"}]
+            if not (fl and ex) or (q, node.lineno) in seen:
+                continue
+            seen.add((q, node.lineno))
+            chk.ob(rule, f"{q}: `{seg(node, 40)}` compares exact numbers", False, loc=f"{c.fi.module}.py:{node.lineno}",
+                   detail=f"{q}: in `{seg(node, 50)}` the operand `{seg(fl[0][0], 20)}` is the float image of exact data ({fl[0][1]}) and is compared with the exact `{seg(ex[0], 20)}`: a Fraction / big integer closer to it than one float ulp compares equal, so a node just outside the interval is judged valid (and span / mult answer instead of raising ValueError)",
+                   func=q, construct=f"float image compared with exact number: {seg(node, 40)}")
+    if not seen:
+        chk.ob(rule, f"no comparison of a float image of exact data with an exact number ({n} comparisons in the exact context)", True, loc="")
+    return n
+
+
+# ------------------------------------------------------------------------------------------------
+# ARG-RANGE: the argument check of an operation refuses no admissible argument
+def arg_range(r: R, chk, qual: str, param: str, admissible, rule="ARG-RANGE", max_degree: int = 5):
+    """the head of the function — everything before the first statement that is neither a check nor a foldable assignment — is
+    folded for degree = 0..max_degree and `param` in `admissible(degree)`: such a value must not run into `raise ValueError`
+    there (degree_decrease(p) down to degree 0 is what makes clean() reach the smallest degree).  Values outside may be refused
+    here or later; a guard of a raise that cannot be folded leaves the rule undecided."""
+    fi = r.prog.func(qual)
+    bad = None
+    undec = False
+    for degree in range(max_degree + 1):
+        for v in admissible(degree):
+            out = fold_outcome(fi.node.body, {param: v, ".degree": degree}, degree, stop_at_work=True)
+            if out is UNK:
+                undec = True
+            elif out[0] == "raise" and bad is None:
+                bad = (degree, v, out[1])
+    if undec and bad is None:
+        chk.note(f"{rule}: {qual}: an argument check could not be folded: not decided")
+        return
+    chk.ob(rule, f"{qual}: no admissible `{param}` is refused by the argument checks (degree 0..{max_degree})", bad is None, loc=f"{fi.module}.py:{fi.node.lineno}",
+           detail="" if bad is None else f"{qual}: for a curve of degree {bad[0]} the call with {param} = {bad[1]} is refused with {bad[2]} by the argument checks at the head of the function although it is admissible: lowering the degree by its full amount (down to degree 0) is what lets degree_clean / clean reach the smallest degree of a constant or piecewise constant curve",
+           func=qual, construct=f"admissible {param} refused")
+
+
+def fold_outcome(stmts, env, degree, stop_at_work: bool):
+    """what a statement list does for the folded environment: ("return",), ("raise", type name), ("end",) when it falls off the end,
+    ("work",) when a statement that is not a check / a foldable assignment is reached and stop_at_work is set, UNK when a test that
+    guards a raise cannot be folded"""
+    from ..cfg import raised_type
+
+    for st in stmts:
+        if isinstance(st, ast.Expr) and isinstance(st.value, ast.Constant):
+            continue
+        if isinstance(st, ast.Raise):
+            return ("raise", raised_type(st))
+        if isinstance(st, ast.Return):
+            return ("return",)
+        if isinstance(st, ast.Pass):
+            continue
+        if isinstance(st, ast.Assert):
+            v = _ev(st.test, env, degree)
+            if v is UNK:
+                continue  # an assertion about something else (tolerance, types of other arguments)
+            if not v:
+                return ("raise", "AssertionError")
+            continue
+        if isinstance(st, ast.If):
+            v = _ev(st.test, env, degree)
+            if v is UNK:
+                if any(isinstance(x, (ast.Raise, ast.Return)) for b in (st.body, st.orelse) for y in b for x in ast.walk(y)):
+                    return UNK
+                if stop_at_work:
+                    return ("work",)
+                continue
+            out = fold_outcome(st.body if v else st.orelse, env, degree, stop_at_work)
+            if out is UNK or out[0] != "end":
+                return out
+            continue
+        if isinstance(st, ast.Assign) and len(st.targets) == 1 and isinstance(st.targets[0], ast.Name):
+            v = _ev(st.value, env, degree)
+            if v is UNK and stop_at_work and any(isinstance(x, ast.Call) for x in ast.walk(st.value)):
+                return ("work",)
+            env[st.targets[0].id] = v
+            continue
+        if stop_at_work:
+            return ("work",)
+    return ("end",)
+
+
+# ------------------------------------------------------------------------------------------------
+# END-EXACT: reference nodes that can be 0 and 1 are mapped onto [lo, hi] so that 1 lands on hi exactly
+def _affine_form(e, t: str):
+    """('naive', lo, hi) for lo + (hi - lo) * t in any commutative arrangement; ('lerp', lo, hi) for (1 - t) * lo + t * hi;
+    ('clamped', ...) for min / max around either; None for anything else"""
+    def is_t(x):
+        return isinstance(x, ast.Name) and x.id == t
+
+    def prod_with_t(x):
+        """x == y * t or t * y -> y"""
+        if isinstance(x, ast.BinOp) and isinstance(x.op, ast.Mult):
+            if is_t(x.right):
+                return x.left
+            if is_t(x.left):
+                return x.right
+        return None
+
+    if isinstance(e, ast.Call) and isinstance(e.func, ast.Name) and e.func.id in ("min", "max") and len(e.args) == 2:
+        for a in e.args:
+            inner = _affine_form(a, t)
+            if inner is not None or (isinstance(a, ast.Call) and isinstance(a.func, ast.Name) and a.func.id in ("min", "max")):
+                # min(hi, max(lo, x)) / max(lo, min(hi, x)): both bounds appear
+                names = {seg(b) for c in ast.walk(e) if isinstance(c, ast.Call) and isinstance(c.func, ast.Name) and c.func.id in ("min", "max") for b in c.args if not isinstance(b, (ast.Call, ast.BinOp))}
+                if len(names) >= 2:
+                    return ("clamped", None, None)
+                return inner
+        return None
+    if isinstance(e, ast.BinOp) and isinstance(e.op, ast.Add):
+        for a, b in ((e.left, e.right), (e.right, e.left)):
+            d = prod_with_t(b)
+            if d is not None and isinstance(d, ast.BinOp) and isinstance(d.op, ast.Sub) and seg(d.right) == seg(a):
+                return ("naive", a, d.left)
+            # (1 - t) * lo + t * hi
+            pa, pb = None, prod_with_t(b)
+            if isinstance(a, ast.BinOp) and isinstance(a.op, ast.Mult):
+                for u, v in ((a.left, a.right), (a.right, a.left)):
+                    if isinstance(u, ast.BinOp) and isinstance(u.op, ast.Sub) and isinstance(u.left, ast.Constant) and u.left.value == 1 and is_t(u.right):
+                        pa = v
+            if pa is not None and pb is not None:
+                return ("lerp", pa, pb)
+    return None
+
+
+def end_exact(r: R, chk, quals: List[str], rule="END-EXACT"):
+    """closed node families contain 0 and 1.  In floating point `lo + (hi - lo) * 1` is not always `hi` ((hi - lo) is rounded:
+    0.3 + (0.9 - 0.3) > 0.9), and the evaluators refuse a parameter outside [lo, hi] with ValueError, so a node family that may
+    be closed has to be mapped with an expression that is exact at both ends — `(1 - t) * lo + t * hi`, or a clamp — before it is
+    handed on.  Decided for comprehensions `f(lo, hi, t) for t in <nodes>` where <nodes> may come from a closed family (directly
+    or through a registry that offers one); other forms of the map are left undecided."""
+    from .c10 import CLOSED_NODES, funcrefs
+
+    n = 0
+    for q in quals:
+        ctx = r.root(q)
+        fi = ctx.fi
+        # names that may hold the nodes of a closed family
+        closed_names = set()
+        for a in ast.walk(fi.node):
+            if isinstance(a, ast.Assign) and len(a.targets) == 1 and isinstance(a.targets[0], (ast.Name, ast.Tuple)):
+                v = a.value
+                while isinstance(v, ast.Subscript):
+                    v = v.value
+                if isinstance(v, ast.Call) and any(f in CLOSED_NODES for f in funcrefs(ctx, v.func)):
+                    if isinstance(a.targets[0], ast.Name):
+                        closed_names.add(a.targets[0].id)
+        ch = True
+        while ch:
+            ch = False
+            for a in ast.walk(fi.node):
+                if isinstance(a, ast.Assign) and len(a.targets) == 1:
+                    tg, v = a.targets[0], a.value
+                    pairs = []
+                    if isinstance(tg, ast.Name):
+                        pairs = [(tg, v)]
+                    elif isinstance(tg, ast.Tuple) and isinstance(v, ast.Tuple) and len(tg.elts) == len(v.elts):
+                        pairs = list(zip(tg.elts, v.elts))
+                    for t_, v_ in pairs:
+                        while isinstance(v_, ast.Subscript):
+                            v_ = v_.value
+                        if isinstance(t_, ast.Name) and t_.id not in closed_names and isinstance(v_, ast.Name) and v_.id in closed_names:
+                            closed_names.add(t_.id)
+                            ch = True
+        for comp in ast.walk(fi.node):
+            if not (isinstance(comp, (ast.GeneratorExp, ast.ListComp)) and len(comp.generators) == 1 and isinstance(comp.generators[0].target, ast.Name)):
+                continue
+            it = comp.generators[0].iter
+            if not (isinstance(it, ast.Name) and it.id in closed_names):
+                continue
+            form = _affine_form(comp.elt, comp.generators[0].target.id)
+            if form is None:
+                chk.note(f"{rule}: {q}: `{seg(comp.elt, 40)}` is not a map of reference nodes this rule knows: not decided")
+                continue
+            n += 1
+            ok = form[0] != "naive"
+            chk.ob(rule, f"{q}: `{seg(comp.elt, 40)}` maps the node 1 onto the upper end exactly", ok, loc=r.loc(ctx, comp),
+                   detail="" if ok else f"{q}: the nodes of `{it.id}` may be a closed family (0 and 1 included) and are mapped by `{seg(comp.elt, 40)}`: in floating point `lo + (hi - lo) * 1` can exceed `hi` by one ulp (0.3 + (0.9 - 0.3) > 0.9), and the evaluation at that node is refused with ValueError (outside the interval) — the whole operation raises on such an interval; `(1 - t) * lo + t * hi` is exact at both ends",
+                   func=q, construct=f"closed nodes mapped by {seg(comp.elt, 40)}")
+    return n
+
+
+def starts_in_range(r: R, chk, qual: str, newton_suffix: str, rule="START-IN-RANGE"):
+    """the start parameters handed to the Newton iteration come from an end-exact construction: `np.linspace(lo, hi, n)` (numpy
+    pins the last sample to hi), the limits themselves, a lerp or a clamp — not `lo + k * (hi - lo) / n`, whose last value can
+    exceed hi by one ulp, so that the first evaluation of the piece is refused with ValueError"""
+    ctx = r.root(qual)
+    fi = ctx.fi
+    calls = [c for c in r.calls_in(ctx, newton_suffix) if c.kind == "call"]
+    chk.floor(rule, f"calls of the Newton iteration in {qual}", len(calls), 1)
+    for cr in calls:
+        start = cr.node.args[-1] if cr.node.args else None
+        verdict, how = None, ""
+        src = None
+        if isinstance(start, ast.Name):
+            # a loop / comprehension variable over a sequence, or a plain local
+            for lp in ast.walk(fi.node):
+                if isinstance(lp, (ast.For, ast.comprehension)) and isinstance(lp.target, ast.Name) and lp.target.id == start.id:
+                    src = lp.iter
+            if src is None:
+                ds = [a.value for a in ast.walk(fi.node) if isinstance(a, ast.Assign) and len(a.targets) == 1 and isinstance(a.targets[0], ast.Name) and a.targets[0].id == start.id]
+                src = ds[0] if len(ds) == 1 else None
+        for _ in range(3):
+            if isinstance(src, ast.Name):
+                ds = [a.value for a in ast.walk(fi.node) if isinstance(a, ast.Assign) and len(a.targets) == 1 and isinstance(a.targets[0], ast.Name) and a.targets[0].id == src.id]
+                src = ds[0] if len(ds) == 1 else None
+            while isinstance(src, ast.Call) and isinstance(src.func, ast.Name) and src.func.id in ("tuple", "list", "sorted") and len(src.args) == 1:
+                src = src.args[0]
+        if isinstance(src, ast.Call) and seg(src.func).endswith("linspace") and len(src.args) >= 2:
+            verdict, how = True, "np.linspace"
+        elif isinstance(src, (ast.Tuple, ast.List, ast.Set)) and all(isinstance(x, ast.Name) for x in src.elts):
+            verdict, how = True, "the limits"
+        elif isinstance(src, (ast.ListComp, ast.GeneratorExp)) and len(src.generators) == 1 and isinstance(src.generators[0].target, ast.Name):
+            form = _affine_form(src.elt, src.generators[0].target.id)
+            e = src.elt
+            over_range = isinstance(src.generators[0].iter, ast.Call) and seg(src.generators[0].iter.func) == "range"
+            if form is not None:
+                verdict, how = form[0] != "naive", form[0]
+            elif over_range and isinstance(e, ast.BinOp) and isinstance(e.op, ast.Add) and any(isinstance(x, ast.BinOp) and isinstance(x.op, ast.Sub) for side in (e.left, e.right) for x in ast.walk(side)):
+                verdict, how = False, "lo + k * (hi - lo) / n"
+        if verdict is None:
+            chk.note(f"{rule}: {qual}: the start values of `{seg(cr.node, 40)}` are built in a way this rule does not know: not decided")
+            continue
+        chk.ob(rule, f"{qual}: the Newton starts of `{seg(cr.node, 40)}` are inside the interval by construction ({how})", verdict, loc=r.loc(ctx, cr.node),
+               detail="" if verdict else f"{qual}: the start parameters are `{seg(src, 60)}`: the last one is lo + (hi - lo) computed in floating point, which can exceed hi by one ulp (0.3 + 4 * (0.9 - 0.3) / 4 > 0.9); the piece is then evaluated outside its interval and point_on_curve raises ValueError instead of returning parameters",
+               func=qual, construct="Newton starts not end-exact")
